@@ -607,6 +607,65 @@ func (e *Engine) finishRestore() {
 	}
 }
 
+// constBytes: a package-level `var delim = []byte("-->")` that nothing in the module writes or lets escape
+// (roglobal.go, strict): its bytes are as constant as a literal argument list.
+func (e *Engine) constBytes(g *ssa.Global) ([]byte, bool) {
+	e.itabMu.Lock()
+	defer e.itabMu.Unlock()
+	if e.cbytes == nil {
+		e.cbytes = map[*ssa.Global][]byte{}
+	}
+	if b, ok := e.cbytes[g]; ok {
+		return b, b != nil
+	}
+	var out []byte
+	func() {
+		if g.Pkg == nil || !core.InModule(g.Pkg.Pkg) {
+			return
+		}
+		sl, ok := derefType(g.Type()).Underlying().(*types.Slice)
+		if !ok || !isByteType(sl.Elem()) {
+			return
+		}
+		pk := e.prog.ByPath[g.Pkg.Pkg.Path()]
+		if pk == nil {
+			return
+		}
+		l, err := evalGlobal(pk, g.Name())
+		if err != nil || l == nil {
+			return
+		}
+		var bs []byte
+		switch {
+		case l.Const != nil && l.Const.Kind() == constant.String && l.IsBytes:
+			bs = []byte(constant.StringVal(l.Const))
+		case l.Elems != nil:
+			for _, el := range l.Elems {
+				if el == nil {
+					bs = append(bs, 0)
+					continue
+				}
+				if el.Const == nil || el.Const.Kind() != constant.Int {
+					return
+				}
+				c, _ := constant.Int64Val(el.Const)
+				bs = append(bs, byte(c))
+			}
+		default:
+			return
+		}
+		if len(bs) == 0 || len(bs) > 16 {
+			return
+		}
+		if globalWritten(e.prog, g, true) != "" {
+			return
+		}
+		out = bs
+	}()
+	e.cbytes[g] = out
+	return out, out != nil
+}
+
 // rowTable: a package-level slice/array literal whose elements are struct literals (rows of constants and functions).
 func (e *Engine) rowTable(g *ssa.Global) *Lit {
 	e.itabMu.Lock()
